@@ -45,6 +45,28 @@ def dstep (d : DState) (toks : List String) : DState × List String :=
       let fbm := ((rest.getD 12 "").drop 7).toString.toNat?.getD 0
       let lim := if fbm = 2 then 8388608 else 268435456
       ({ d with st := some { fmt := f, encs := encs, cursor := cur, allocLimit := lim }, fbmode := fbm }, ["ok"])
+  | "adopt" :: rest =>
+    -- the application replaces client->format in its first MallocFrameBuffer callback, i.e. before
+    -- SetFormatAndEncodings and before anything is decoded: the session runs in that format
+    match d.st, parseFmt rest with
+    | some s, some f => if d.dead then (d, ["bad-op"]) else ({ d with st := some { s with fmt := f } }, ["ok"])
+    | _, _ => (d, ["bad-op"])
+  | "setformat" :: rest =>
+    -- the application changes client->format in mid-session, calls SetFormatAndEncodings and
+    -- re-allocates its framebuffer (MallocFrameBuffer) for the new pixel size
+    match d.st, parseFmt rest with
+    | some s, some f =>
+      if d.dead then (d, ["bad-op"]) else
+      let s := setFormatAndEncodings { fresh s with fmt := f }
+      match resize s s.fb.w s.fb.h with
+      | .ok s => ({ d with st := some s }, [stateLine "setformat" s d.srv.length])
+      | _ => ({ d with dead := true }, ["setformat F"])
+    | _, _ => (d, ["bad-op"])
+  | ["wait"] =>
+    -- WaitForMessage(client, 0): something to handle = unread bytes, wherever they are (socket or read-ahead buffer)
+    match d.st with
+    | some _ => if d.dead then (d, ["bad-op"]) else (d, [s!"wait {if d.srv.isEmpty then 0 else 1}"])
+    | none => (d, ["bad-op"])
   | ["seg", _] => (d, ["ok"])
   | ["eos", _] => (d, ["ok"])
   | ["z", id, hz, hp] =>
